@@ -664,6 +664,11 @@ arRdItemArch0(Archive ar)
 	/* Move to the start of the data for this record */
 	if (cc % align != 0) cc += align - (cc % align);
 	arPosition(ar) = ar->__next + cc;
+
+	/* The data of the member must lie inside the file. */
+	if (arPosition(ar) + size > arSize(ar))
+		comsgError(NULL, ALDOR_E_ArTruncated, arToString(ar));
+
 	arSeek(ar, arPosition(ar));
 
 
